@@ -39,6 +39,12 @@ func c16Menu(w *mintops.W) []string {
 	}
 	if len(w.Melts) < 2 {
 		ops = append(ops, "meltq|3", "meltq|4", "meltq|5")
+		// the mint's own invoices (internal settlement) are melt quotes like any other
+		for qi, q := range w.Quotes {
+			if qi >= 2 && q.Payments == 0 && q.Q.Amount <= 64 {
+				ops = append(ops, fmt.Sprintf("meltqi|%d", qi))
+			}
+		}
 		if m := w.Cfg.Limits.MeltingSettings.MaxAmount; m > 0 {
 			// amounts with sub-sat precision around the maximum
 			ops = append(ops, fmt.Sprintf("meltqm|%d", m*1000-1), fmt.Sprintf("meltqm|%d", m*1000+1), fmt.Sprintf("meltqm|%d", m*1000+999))
@@ -123,7 +129,7 @@ var c16All = specMap(c16Specs(true), c16Specs(false))
 func init() {
 	register(&Prop{ID: "C16", Level: "model_checking", QuickBudget: 100 * time.Second, ThoroughBudget: 25 * time.Minute,
 		Run: func(c *rt.Ctx) {
-			c.Cov["rule"] = "E3, one search per limits configuration (unset / mint max {7,8,9} / melt max {3,4,5} / max balance {8, exactly the balance 16, 23, 24, 25, 2^64-1} / all three), fees 0 and 100: every history up to the depth bound over {mint quote for x in {1,7,8,9,2^63-1,2^63,2^64-1,2^64-8}, settle, mint (exact, less), swap (fee burns value), melt quote x {3,4,5} and, with a melt maximum M, invoices / MPP parts of M*1000-1, +1, +500, +999 msat, melt x {Succeeded, Failed}, rotate}; in every state IssuedEcash/RedeemedEcash/TotalBalance are compared per keyset with the model's sums of signatures handed out / proofs consumed, the info endpoint with the exact predicate, and every quote request with the limit predicates evaluated in math/big; in every state the balance figures, the info flag and the refusal of the smallest over-balance mint quote are repeated with a storage error injected at each read call of the request: the answer must be an error or unchanged"
+			c.Cov["rule"] = "E3, one search per limits configuration (unset / mint max {7,8,9} / melt max {3,4,5} / max balance {8, exactly the balance 16, 23, 24, 25, 2^64-1} / all three), fees 0 and 100: every history up to the depth bound over {mint quote for x in {1,7,8,9,2^63-1,2^63,2^64-1,2^64-8}, settle, mint (exact, less), swap (fee burns value), melt quote x {3,4,5}, melt quote on the invoice of an own mint quote (internal) and, with a melt maximum M, invoices / MPP parts of M*1000-1, +1, +500, +999 msat, melt x {Succeeded, Failed}, rotate}; in every state IssuedEcash/RedeemedEcash/TotalBalance are compared per keyset with the model's sums of signatures handed out / proofs consumed, the info endpoint with the exact predicate, and every quote request with the limit predicates evaluated in math/big; in every state the balance figures, the info flag and the refusal of the smallest over-balance mint quote are repeated with a storage error injected at each read call of the request: the answer must be an error or unchanged"
 			c.Cov["limit_configurations"] = len(c16Specs(c.Quick()))
 			runSpecs(c, c16Specs(c.Quick()))
 		},
